@@ -403,10 +403,15 @@ class Runner(object):
                 prev_op.pop(id(frame), None)
             return local
 
+        files = getattr(self, "files", ())
+
         def tracer(frame, event, arg):
-            if frame.f_code in codes:
+            # every function defined in the inspector's own module counts (a helper called between a validity check and
+            # the raw read it guards is a thread-switch point too: CPython checks the eval breaker on function entry)
+            if frame.f_code in codes or frame.f_code.co_filename in files:
                 frame.f_trace_opcodes = True
                 frame.f_trace_lines = False
+                point(frame)   # function entry is an eval-breaker check (RESUME): a thread switch can happen here
                 return local
             return None
         res = None
@@ -453,6 +458,7 @@ def trace_codes(which):
     stackscope.extract(threading.current_thread())
     impl = LL.inspect_frame
     codes = set([impl.__code__])
+    trace_codes.files = set([impl.__code__.co_filename])
     if which == "extract":
         reg = stackscope.unwrap_stackitem.registry
         ut = reg[threading.Thread]
@@ -523,6 +529,8 @@ def check_extract(R, refs, sched, start_pos, since=False):
             problems.append("extract(thread) reported a frame of the impostor thread that reused the ident: %s" % f.funcname)
         elif f.pyframe not in allowed:
             # frames created before profiling started: threading bootstrap
+            if f.pyframe.f_code.co_filename.endswith(("threading.py", "_weakrefset.py")):
+                continue  # thread start-up / tear-down code of the standard library running on the target thread
             if f.pyframe.f_code.co_name in ("_bootstrap", "_bootstrap_inner", "run", "body", "prof"):
                 # bootstrap frames predate profiling; `prof` is the harness's own profile callback, which runs on the
                 # target thread (it may still be handling the c_call event of the gate's acquire when we look)
@@ -552,6 +560,7 @@ def run_race(ctx, which):
     for ti in range(b["target_programs"]):
         R = Runner(ti)
         R.codes = trace_codes("extract" if which in ("race_extract", "race_since") else "inspect")
+        R.files = trace_codes.files
         refs = R.reference()
         npos = R.npos
         checker = {"race_extract": check_extract, "race_since": check_since}.get(which, check_inspect)
@@ -608,6 +617,7 @@ def replay(case):
     which = case["leg"]
     R = Runner(case["target"])
     R.codes = trace_codes("extract" if which in ("race_extract", "race_since") else "inspect")
+    R.files = trace_codes.files
     refs = R.reference()
     sched = dict((int(k), v) for k, v in case["schedule"].items())
     checker = {"race_extract": check_extract, "race_since": check_since}.get(which, check_inspect)
